@@ -281,6 +281,9 @@ def run(prog, ctx):
                 "value the layout requires, a negative counter is written zero-extended" % (ty, ty, int(ty[1:]) // 8), g.id,
                 sample={"rule": "C12.V", "type": ty, "widening_casts": wide})
     res.rule("C12.V", n_v, 3, "signed Count-Min counter types narrower than 64 bits")
+    # an Hll4 image lists one aux pair per exception nibble: a register that keeps the token nibble without an entry (or an entry whose
+    # register holds an ordinary nibble) cannot be decoded from the layout
+    C.import_rules(res, prog, ctx, "C12.A", "C02", ("C02.A4",), "Hll4 exception nibbles and the aux pairs the image lists", 1)
     C.import_rules(res, prog, ctx, "C12.P", "C04", ("C04.P",), "compact form handed to the theta writer", 1)
     res.explanation = ("writer I/O models (write sites with token kind, value provenance and guards, callees inlined) of the seven families, evaluated "
                        "under every abstract sketch state of specfmt.py and compared token by token with the published layouts")
